@@ -154,7 +154,12 @@ impl<'a> IntoIterator for &'a BytesExpr {
 
 fn fixed_byte(input: &str, digits: usize, radix: u32) -> LexResult<'_, u8> {
     let (digits, rest) = take(input, digits)?;
-    match u8::from_str_radix(digits, radix) {
+    // `from_str_radix` accepts a leading `+`, which is not a digit of any radix.
+    let parsed = match digits.strip_prefix('+') {
+        Some(_) => u8::from_str_radix("+", radix),
+        None => u8::from_str_radix(digits, radix),
+    };
+    match parsed {
         Ok(b) => Ok((b, rest)),
         Err(err) => Err((LexErrorKind::ParseInt { err, radix }, digits)),
     }
